@@ -122,6 +122,14 @@ func verifyRecovery(nw *Network, v *SimNode, pre []*Delivered, attempted, comple
 	res := nw.Res
 	o := v.Opts
 	o.Bootstrap = true
+	// fsrestart: the operator restarts the node with both bootstrap and
+	// fast-sync enabled; nobody answers its fast-forward request at that moment
+	// (the others are unreachable, or none of them has an anchor block yet), so
+	// the node goes on from what its database gave it
+	fsRestart := nw.Res.Case.I("fsrestart", 0) == 1
+	if fsRestart {
+		o.FastSync = true
+	}
 	cur := clonePeers(v.peersAtCrash)
 	if err := nw.startNode(v, o, cur, clonePeers(nw.Genesis)); err != nil {
 		nw.violate("C11", "C11:bootstrap-fails", fmt.Sprintf("after a crash at %s the node cannot bootstrap from its database: %v", where, err), map[string]interface{}{"crash_point": where})
@@ -133,6 +141,26 @@ func verifyRecovery(nw *Network, v *SimNode, pre []*Delivered, attempted, comple
 	}
 	nw.lostPool[v.Idx] = true
 	res.count("crash_recoveries", 1)
+	if fsRestart && v.Node.GetState() == _state.CatchingUp {
+		saved := map[int]bool{}
+		for _, x := range nw.Nodes {
+			if x != v {
+				saved[x.Idx] = x.Silent
+				x.Silent = true
+			}
+		}
+		err := nw.FastForward(v)
+		for _, x := range nw.Nodes {
+			if x != v {
+				x.Silent = saved[x.Idx]
+			}
+		}
+		res.count("restarts_with_fast_sync_enabled_and_no_answer", 1)
+		if err == nil || v.Node.GetState() != _state.Babbling {
+			res.inconclusive(fmt.Sprintf("fsrestart: expected the unanswered fast-forward to end in Babbling (err=%v state=%s)", err, v.Node.GetState().String()))
+			return false
+		}
+	}
 	post := v.App.Delivered
 	// every block delivered before the crash is re-delivered identically
 	for i, d := range pre {
@@ -686,6 +714,9 @@ func init() {
 					c.P["steps"] = 260
 					c.P["k"] = int64(2500 + rg.Intn(3000))
 					c.P["cont"] = 40
+				}
+				if i%12 == 3 {
+					c.P["fsrestart"] = 1
 				}
 				if i%3 == 2 {
 					// events that the victim refuses are offered to it before the crash
